@@ -175,7 +175,8 @@ def gen_spec(seed, profile=None):
         nodes.append(nd)
     spec['nodes'] = nodes
     # priorities
-    if ncls > 1 and r.random() < P('p_prio', 0.5):
+    # PS nodes index their customers by position in the priority-ordered list: priorities x PS is outside the validity domain
+    if ncls > 1 and r.random() < P('p_prio', 0.5) and not any(nd['node_class'] == 'PS' for nd in nodes):
         k = r.randint(2 if P('force_distinct_prio', False) else 1, ncls)
         pr = [r.randrange(k) for _ in classes]
         if P('force_distinct_prio', False) and len(set(pr)) < 2:
@@ -295,6 +296,27 @@ def gen_spec(seed, profile=None):
             for c in classes:
                 if rt[c]['r'] != first['r']:
                     rt[c] = copy.deepcopy(first)
+    # keep most runs clear of the two open state-corrupting findings (K19: reroute back to the same node, K2: a
+    # pre-emptive shift end hitting a blocked customer) so that they are judged to the end; a share still goes there
+    if r.random() < P('p_avoid_known', 0.85):
+        for i, nd in enumerate(nodes):
+            rr = (spec['prio_preempt'] and spec['prio_preempt'][i] == 'reroute') or nd['servers'].get('preempt') == 'reroute'
+            if not rr: continue
+            for c in classes:
+                q = rt[c]
+                if q['r'] == 'tm': q['M'][i][i] = 0.0
+                elif q['r'] == 'nr':
+                    x = q['routers'][i]
+                    if x['k'] == 'direct' and x['to'] == i + 1: x['to'] = -1
+                    elif x['k'] in ('prob', 'jsq', 'lb') and (i + 1) in x['dests']:
+                        j = x['dests'].index(i + 1)
+                        x['dests'].pop(j)
+                        if x['k'] == 'prob': x['probs'].pop(j)
+                        if not x['dests']: q['routers'][i] = {'k': 'leave'}
+                    elif x['k'] == 'cycle':
+                        x['cycle'] = [d for d in x['cycle'] if d != i + 1] or [-1]
+        if any(nd['servers'].get('preempt') for nd in nodes if nd['servers']['kind'] in ('schedule', 'slotted')):
+            for nd in nodes: nd['qcap'] = 'inf'
     spec['syscap'] = r.choice([1, 2, 3, 5, 8]) if r.random() < P('p_syscap', 0.15) else None
     has_ps = any(nd['node_class'] == 'PS' for nd in nodes)
     spec['exact'] = r.choice([12, 20, 26]) if r.random() < P('p_exact', 0.1) and not has_ps else False
